@@ -10,6 +10,10 @@ Member side (mechanisms of `group_coordinator.py` / `subscription_state.py` / `f
 * `prepared`  `_performed_join_prepare`: the revoke step ran and no assignment was adopted since;
               a JoinGroup is sent only when it is set;
 * `synced`    the decoded SyncGroup reply the next adoption must equal (`_on_join_complete`);
+* `leaveR`    a member that leaves the group by itself (idle application) closes its gate at once:
+              the join preparation runs even though the re-join itself waits for the next poll;
+* `expire`    a live member's session does not run out during its revoke callback (the heartbeat
+              task is stopped only after the join preparation);
 * `inflight`, `fetched`  fetches issued under the current assignment and subscription: an adoption
               or a subscription change forgets everything older (`Assignment.active`,
               `check_assignment`, `_records.clear()`).
@@ -32,6 +36,7 @@ structure Mem where
   synced : Option (Nat × List Nat) := none
   inflight : List (Nat × Nat) := []          -- (p, fetch offset)
   fetched : List (Nat × Nat × Nat) := []     -- (p, fetch offset, last offset returned)
+  dead : Bool := false                       -- killed or stopped
 deriving Inhabited
 
 structure Gen where
@@ -104,11 +109,15 @@ def guard (s : St) : Ev → Bool
   | .noOffset _ _ => true
   | .commit _ _ _ _ => true
   | .gone _ => true
+  | .leaveR _ => true
+  -- the heartbeat task keeps running while the join is prepared (last commit, revoke callback):
+  -- the session of a live member does not run out in the middle of its revoke callback
+  | .expire m => !((s.mem m).inCb == 1 && !(s.mem m).dead)
 
 /-- the member whose record an event changes -/
 def actor : Ev → Option Nat
   | .sub m | .revS m | .revE m | .asgS m _ _ | .asgE m | .joinS m _ _ | .joinR m _ | .syncR m _ _
-  | .fS m _ _ | .fR m _ _ _ => some m
+  | .fS m _ _ | .fR m _ _ _ | .gone m | .leaveR m => some m
   | _ => none
 
 /-- the acting member's record after an accepted event -/
@@ -125,6 +134,10 @@ def upd (x : Mem) : Ev → Mem
     { x with cur := tps, gate := true, inCb := 2, prepared := false, synced := none,
              subChanged := false, inflight := [], fetched := [] }
   | .asgE _ => { x with inCb := 0 }
+  | .gone _ => { x with dead := true }
+  -- the member left the group: `reset_generation` → rejoin needed → `_on_join_prepare` closes the
+  -- gate (`begin_reassignment`) whether or not the application polls
+  | .leaveR _ => { x with gate := false }
   | .fS _ p f => { x with inflight := (p, f) :: x.inflight }
   | .fR _ p f hi =>
     if x.inflight.contains (p, f) then
